@@ -1066,3 +1066,49 @@ theorem checkoutRef_facts (g : G) (r : String) (hm : NoMixed g)
       refine ⟨by simp, rfl, rfl, rfl, Or.inl rfl, fun _ => ⟨rfl, rfl⟩, fun _ _ => ⟨rfl, rfl⟩⟩
 
 end Git
+
+namespace Git
+
+/-! ## aborts (panics) between the git invocations -/
+
+/-- The hypothesis under which the stash sandwich of `git_auto_commit` is safe: none of the pure
+    computations that run between `git stash push --staged` and `git stash pop --index` panics —
+    the `debug!` calls and `checkout -b` argument (`inCheckout`), the argument array of `git add`
+    (`inAdd`), the construction of the commit message from the command line (`inMessage`), the
+    `debug!` calls after `git commit` / before the pop (`inAfterCommit`). -/
+def NoPanicInsideSandwich (s : PanicSites) : Prop :=
+  s.inCheckout = false ∧ s.inAdd = false ∧ s.inMessage = false ∧ s.inAfterCommit = false
+
+instance (s : PanicSites) : Decidable (NoPanicInsideSandwich s) := by
+  unfold NoPanicInsideSandwich; exact inferInstance
+
+theorem commitFilesP_eq (s : PanicSites) (h : NoPanicInsideSandwich s) (spec : Path → Bool) (g : G)
+    (msg : String) (tb : Option String) (hookOk : Bool) :
+    gitCommitXvcFilesP s spec g msg tb hookOk =
+      ((gitCommitXvcFiles spec g msg tb hookOk).1, (gitCommitXvcFiles spec g msg tb hookOk).2, false) := by
+  obtain ⟨h1, h2, h3, h4⟩ := h
+  unfold gitCommitXvcFilesP gitCommitXvcFiles
+  simp only [h1, h2, h3, h4, Bool.false_eq_true, if_false]
+  split
+  · split
+    · rfl
+    · split <;> rfl
+  · rfl
+
+theorem autoCommitP_eq (s : PanicSites) (hb : s.beforeStash = false) (h : NoPanicInsideSandwich s)
+    (spec : Path → Bool) (g : G) (msg : String) (tb : Option String) (hookOk : Bool) :
+    (gitAutoCommitP s spec g msg tb hookOk).g = (gitAutoCommit spec g msg tb hookOk).g ∧
+    (gitAutoCommitP s spec g msg tb hookOk).status = (gitAutoCommit spec g msg tb hookOk).status := by
+  unfold gitAutoCommitP gitAutoCommit
+  simp only [hb, Bool.false_eq_true, if_false]
+  split
+  · exact ⟨rfl, rfl⟩
+  · exact ⟨rfl, rfl⟩
+  · rename_i g1 staged _
+    rw [commitFilesP_eq s h]
+    simp only
+    split
+    · split <;> exact ⟨rfl, rfl⟩
+    · exact ⟨rfl, rfl⟩
+
+end Git
